@@ -46,6 +46,7 @@ private def groupsOfSExp : List SExp → Option (List (List PDV))
 
 def dimseOps (op : String) (args : List SExp) : Option SExp :=
   match op, args with
+  | "dimse.peermax", [.sym r, .nat rq, .nat ac] => some (.nat (peerMax (r == "T") rq ac))
   | "dimse.frag", [.bytes b, .nat max] =>
     some (match fragments b max with
       | none => .sym "ValueError"
